@@ -366,6 +366,8 @@ func (g *G) stmt(c ctx) []Stmt {
 		add(1+3*we, func() []Stmt { return g.deferLocalClosureTwice(c) })
 		add(1+3*we, func() []Stmt { return g.callbackThrows(c) })
 		add(1+2*ws, func() []Stmt { return g.declOnlyBlock(c) })
+		add(1+2*ws, func() []Stmt { return g.selfNameFunc() })
+		add(1+3*we, func() []Stmt { return g.recursiveDefers() })
 		add(1+wc, func() []Stmt { return g.returnElementOrder() })
 	}
 	if c.inLoop && (!c.tryBrk || g.allowControlInTry()) {
@@ -420,6 +422,57 @@ func (g *G) strayControl(c ctx) []Stmt {
 		Cond: &Binary{Op: "<", L: &Name{N: cnt}, R: &IntLit{V: 2}}, Post: &OpAssign{Target: &Name{N: cnt}, Op: "+"},
 		Body: []Stmt{&ExprStmt{X: g.p()}, &ExprStmt{X: &Call{Fn: fn, Args: args}}, &ExprStmt{X: g.p()}}}
 	return []Stmt{&ExprStmt{X: f}, loop, &ExprStmt{X: g.p()}}
+}
+
+// selfNameFunc: a named function is bound in the scope of its declaration only: an assignment
+// to that name inside the body updates that binding, and a recursive call through the name
+// reaches whatever the name denotes at that moment
+func (g *G) selfNameFunc() []Stmt {
+	fn := g.fresh("sf")
+	if g.R.Intn(2) == 0 {
+		g.feat("func-assigns-own-name")
+		return []Stmt{
+			&ExprStmt{X: &FuncLit{Name: fn, Params: []string{"q0"}, Body: []Stmt{
+				&ExprStmt{X: g.p()},
+				&If{Cond: &Binary{Op: ">", L: &Name{N: "q0"}, R: &IntLit{V: 0}}, Then: []Stmt{&Assign{LHS: []Expr{&Name{N: fn}}, RHS: []Expr{&IntLit{V: 7}}}}},
+				&Return{Exprs: []Expr{&Name{N: "q0"}}}}}},
+			&ExprStmt{X: &Call{Fn: "rd", Args: []Expr{&StrLit{V: fn}, &Call{Fn: fn, Args: []Expr{&IntLit{V: 1}}}}}},
+			&ExprStmt{X: &Call{Fn: "rd", Args: []Expr{&StrLit{V: fn}, &Name{N: fn}}}},
+		}
+	}
+	g.feat("func-recursion-through-rebound-name")
+	alias := g.fresh("sg")
+	return []Stmt{
+		&ExprStmt{X: &FuncLit{Name: fn, Params: []string{"q0"}, Body: []Stmt{
+			&ExprStmt{X: g.p()},
+			&If{Cond: &Binary{Op: ">", L: &Name{N: "q0"}, R: &IntLit{V: 0}}, Then: []Stmt{
+				&Return{Exprs: []Expr{&Binary{Op: "+", L: &Call{Fn: fn, Args: []Expr{&Binary{Op: "-", L: &Name{N: "q0"}, R: &IntLit{V: 1}}}}, R: &IntLit{V: 1}}}}}},
+			&Return{Exprs: []Expr{&IntLit{V: 0}}}}}},
+		&Assign{LHS: []Expr{&Name{N: alias}}, RHS: []Expr{&Name{N: fn}}},
+		&Assign{LHS: []Expr{&Name{N: fn}}, RHS: []Expr{&FuncLit{Params: []string{"q0"}, Body: []Stmt{&ExprStmt{X: g.p()}, &Return{Exprs: []Expr{&IntLit{V: 100}}}}}}},
+		&ExprStmt{X: &Call{Fn: "rd", Args: []Expr{&StrLit{V: alias}, &Call{Fn: alias, Args: []Expr{&IntLit{V: 2}}}}}},
+	}
+}
+
+// recursiveDefers: a function that defers and re-enters itself, used several times: every
+// invocation keeps its own list of deferred calls
+func (g *G) recursiveDefers() []Stmt {
+	g.feat("defer-in-recursive-function-used-twice")
+	fn := g.fresh("rw")
+	id := g.probeID()
+	body := []Stmt{
+		&Defer{C: &Call{Fn: "h2", Args: []Expr{&IntLit{V: id}, &Name{N: "q0"}}}},
+		&If{Cond: &Binary{Op: ">", L: &Name{N: "q0"}, R: &IntLit{V: 0}}, Then: []Stmt{&ExprStmt{X: &Call{Fn: fn, Args: []Expr{&Binary{Op: "-", L: &Name{N: "q0"}, R: &IntLit{V: 1}}}}}}},
+		&ExprStmt{X: g.p()},
+	}
+	if g.R.Intn(3) == 0 {
+		body = append(body, &If{Cond: &Binary{Op: "==", L: &Name{N: "q0"}, R: &IntLit{V: 0}}, Then: []Stmt{&Throw{X: &StrLit{V: "T" + strconv.FormatInt(g.probeID(), 10)}}}})
+	}
+	body = append(body, &Return{Exprs: []Expr{&Name{N: "q0"}}})
+	call := func(n int64) Stmt {
+		return &ExprStmt{X: &Call{Fn: "rd", Args: []Expr{&StrLit{V: fn}, &Coalesce{L: &Call{Fn: fn, Args: []Expr{&IntLit{V: n}}}, R: &StrLit{V: "<failed>"}}}}}
+	}
+	return []Stmt{&ExprStmt{X: &FuncLit{Name: fn, Params: []string{"q0"}, Body: body}}, call(0), call(2), call(1)}
 }
 
 // declOnlyBlock: an if / else-if / else block whose only binding statement is a
@@ -642,6 +695,11 @@ func (g *G) ifStmt(c ctx) []Stmt {
 	for n := g.R.Intn(3); n > 0; n-- {
 		g.feat("else-if")
 		ei := ElseIf{Cond: g.CondExpr(1)}
+		if g.R.Intn(10) == 0 {
+			// a failing else-if condition ends the statement with that error: no later branch runs
+			g.feat("failing-elseif-condition")
+			ei.Cond = &Binary{Op: "<", L: g.failExpr(), R: &IntLit{V: 1}}
+		}
 		ei.Body = g.scoped(func() []Stmt { return g.block(g.inner(c), g.maybeEmpty(1+g.R.Intn(2))) })
 		s.ElseIfs = append(s.ElseIfs, ei)
 	}
@@ -706,13 +764,26 @@ func (g *G) loop(c ctx) []Stmt {
 			g.feat("loop-cond-fails-later")
 			s.Cond = &Binary{Op: ">=", L: &Binary{Op: "%", L: &IntLit{V: 1}, R: &Binary{Op: "-", L: &IntLit{V: n}, R: &Name{N: cnt}}}, R: &IntLit{V: 0}}
 		}
-		if g.R.Intn(2) == 0 {
+		postless := g.R.Intn(6) == 0
+		switch {
+		case postless:
+			// no post expression: the body advances the counter first; the condition starts with a
+			// literal now and then (a loop is left only when its condition fails, a continue in it
+			// goes to the condition)
+			g.feat("loop-cfor-no-post")
+			if g.R.Intn(2) == 0 {
+				s.Cond = &Binary{Op: ">", L: &IntLit{V: n}, R: &Name{N: cnt}}
+			}
+		case g.R.Intn(2) == 0:
 			// probing post expression: "post runs after continue" is visible
 			s.Post = &OpAssign{Target: &Name{N: cnt}, Op: "+", R: &Binary{Op: "-", L: g.p(), R: &IntLit{V: int64(g.k) - 1}}}
-		} else {
+		default:
 			s.Post = &OpAssign{Target: &Name{N: cnt}, Op: "+"}
 		}
 		s.Body = g.scoped(func() []Stmt { return g.block(lc, 1+g.R.Intn(3)) })
+		if postless {
+			s.Body = append([]Stmt{&ExprStmt{X: &OpAssign{Target: &Name{N: cnt}, Op: "+"}}}, s.Body...)
+		}
 		return append(pre, s)
 	default: // for-in over a list
 		g.feat("loop-forin-list")
@@ -1246,6 +1317,21 @@ func (g *G) deferStmt(c ctx) []Stmt {
 			&Throw{X: &StrLit{V: "T" + strconv.FormatInt(g.probeID(), 10)}}}}}}}
 	default:
 		g.feat("defer-variadic")
+		if g.R.Intn(3) == 0 {
+			// the callee of the deferred spread call is a function literal or a map member
+			g.feat("defer-spread-anonymous-callee")
+			id := g.probeID()
+			lit := &FuncLit{Params: []string{"q0", "rest"}, Variadic: true, Body: []Stmt{
+				&Return{Exprs: []Expr{&Call{Fn: "hv", Args: []Expr{&IntLit{V: id}, &Name{N: "q0"}, &Name{N: "rest"}}}}}}}
+			args := []Expr{g.IntExpr(0), &ListLit{Elems: []Expr{g.IntExpr(0), g.IntExpr(0), g.IntExpr(0)}}}
+			if g.R.Intn(2) == 0 {
+				return []Stmt{&Defer{C: &Call{Callee: lit, Spread: true, Args: args}}}
+			}
+			mn := g.fresh("dm")
+			fixed := &FuncLit{Params: []string{"q0", "q1"}, Body: []Stmt{&Return{Exprs: []Expr{&Call{Fn: "h3", Args: []Expr{&IntLit{V: id}, &Name{N: "q0"}, &Name{N: "q1"}}}}}}}
+			return []Stmt{&Assign{LHS: []Expr{&Name{N: mn}}, RHS: []Expr{&MapLit{Keys: []Expr{&StrLit{V: "f"}}, Vals: []Expr{fixed}}}},
+				&Defer{C: &Call{Callee: &Member{X: &Name{N: mn}, Name: "f"}, Spread: true, Args: []Expr{&ListLit{Elems: []Expr{g.IntExpr(0), g.IntExpr(0)}}}}}}
+		}
 		if g.R.Intn(2) == 0 {
 			return []Stmt{&Defer{C: &Call{Fn: "hv", Args: []Expr{&IntLit{V: g.probeID()}, g.IntExpr(0), g.IntExpr(0)}}}}
 		}
